@@ -345,6 +345,11 @@ def _checkDigestResponse(auth_map, password, method='GET', A1=None, **kwargs):
     if auth_map['realm'] != kwargs.get('realm', None):
         return False
 
+    if password is None and not (A1 is not None and auth_map.get('algorithm', MD5) == MD5_SESS):
+        # unknown user: there is no password the response could prove
+        # knowledge of ('%s' % None would verify the password text "None")
+        return False
+
     response = _computeDigestResponse(auth_map, password, method, A1, **kwargs)
 
     return response == auth_map['response']
